@@ -62,6 +62,19 @@ def generate():
              "ScmpParameterProblem checksum computation", sm, re.S)
     atcall = bool(m and re.search(r"\.add_slice\(", m.group(1)))
     covers = inside or atcall
+    # SCMP error messages are not answered (guard arm in the gateway + predicate in packet_policy.rs);
+    # absent construct = the tree before that repair: limit 0 = nothing is suppressed
+    g = re.search(r"Err\(e\) if e\.offending_is_scmp_error\(\) => \{", t)
+    limit = 0
+    if g:
+        m = need(p, r"fn offending_is_scmp_error\(&self\) -> bool \{\s*match self \{\s*PacketPolicyError::MalformedPacket\(\.\.\) => false,\s*"
+                    r"PacketPolicyError::InvalidPathType\(view, _\)\s*\| PacketPolicyError::InvalidSourceAddress\(view\) => \{\s*"
+                    r"view\.header\(\)\.next_header\(\) == ProtocolNumber::Scmp\s*&& view\.payload\(\)\.first\(\)\.is_some_and\(\|scmp_type\| \*scmp_type < (\d+)\)",
+                 "offending_is_scmp_error", pp, re.S)
+        limit = int(m.group(1)) if m else 0
+        # the guard arm must come before the replying arm
+        need(t, r"Err\(e\) if e\.offending_is_scmp_error\(\) => \{.*?\}\s*Err\(e\) => \{\s*tracing::debug!\(err=%e, \"Inbound datagram check failed\"\);",
+             "suppression arm before the reply arm", gw, re.S)
     body = f"""From Coq Require Import NArith List.
 Import ListNotations.
 Local Open Scope N_scope.
@@ -70,6 +83,7 @@ Definition PP_CODE_MALFORMED : N := {nums['MalformedPacket']}.       (* {codes['
 Definition PP_CODE_INVALID_SOURCE : N := {nums['InvalidSourceAddress']}.  (* {codes['InvalidSourceAddress']} *)
 Definition PP_CODE_INVALID_PATH_TYPE : N := {nums['InvalidPathType']}.    (* {codes['InvalidPathType']} *)
 Definition CSUM_COVERS_MESSAGE : bool := {'true' if covers else 'false'}.
+Definition SCMP_ERROR_SUPPRESS_BELOW : N := {limit}.   (* offending SCMP type < this: no reply; 0 = no suppression in the source *)
 Definition IA_WILDCARD : N := {wc}.
 Definition accepted_path_types : list N := [{'; '.join(str(x) for x in accn)}].  (* {', '.join(acc)} *)
 """
